@@ -13,8 +13,15 @@ Dirs == { <<0, 1, 0>>, <<1, 2, -1>>, <<-2, 1, 3>>, <<3, 0, -1>>, <<0, 0, 1>>, <<
 Ks == {-2, 1, 3}
 Tilts == { <<0, 1, 1>>, <<1, 0, 1>>, <<-1, 0, 1>>, <<4, 3, 5>>, <<-3, 4, 5>> }
 Azs == { <<1, 0, 1>>, <<0, 1, 1>>, <<-1, 0, 1>>, <<4, 3, 5>>, <<3, -4, 5>>, <<-12, 5, 13>> }
+\* targets level with the corners (even doubled coordinates), inside and far outside the polygon: the crossing test must
+\* treat a corner level with the point consistently whichever corner the polygon is listed from
+LevelTargets == { <<x, y>> : x \in {-6, -2, 0, 2, 3, 4, 6, 8, 10, 12, 16}, y \in {0, 4, 6, 8, 12} }
+Shift(p, s) == [i \in 1..Len(p) |-> p[((i + s - 1) % Len(p)) + 1]]
 VARIABLE c
-Init == c \in [poly : { Polys[i] : i \in DOMAIN Polys }, q : Targets, D : Dirs, k : Ks, tilt : Tilts, az : Azs]
+Init == \/ c \in [poly : { Polys[i] : i \in DOMAIN Polys }, q : Targets, D : Dirs, k : Ks, tilt : Tilts, az : Azs]
+        \/ \E i \in DOMAIN Polys : \E s \in 0..(Len(Polys[i]) - 1) :
+              c \in [poly : { Shift(Polys[i], s) }, q : LevelTargets, D : { <<0, 1, 0>>, <<0, 0, 1>>, <<-2, 1, 3>> }, k : {1},
+                     tilt : { <<0, 1, 1>>, <<1, 0, 1>>, <<4, 3, 5>> }, az : { <<1, 0, 1>>, <<3, -4, 5>> }]
 Next == UNCHANGED c
 Spec == Init /\ [][Next]_c
 InvEmit == OnOutline(c.q, c.poly) \/ PrintT(<<"CASE", ToJson([c |-> c, hit |-> Hit(c), parallel |-> Dot(c.D, Normal(c.tilt, c.az)) = 0])>>)
